@@ -351,6 +351,8 @@ pub struct Cfg {
     pub bad: Vec<Den>,
     pub bad_amounts: Vec<u128>,
     pub receivers: Vec<Rcv>,
+    /// receivers named by packets with a non-redeemable denomination
+    pub bad_receivers: Vec<Rcv>,
     pub raws: Vec<u8>,
     pub ack_kinds: Vec<AckKind>,
     pub timeouts: bool,
@@ -388,6 +390,7 @@ impl Cfg {
             bad: vec![],
             bad_amounts: vec![1],
             receivers: vec![Rcv::User(B), Rcv::Invalid],
+            bad_receivers: vec![Rcv::User(B)],
             raws: vec![0, 1],
             ack_kinds: vec![AckKind::Success, AckKind::Error, AckKind::Garbage],
             timeouts: true,
@@ -1315,9 +1318,14 @@ impl Model for Ics20Model {
         }
         for ch in 0..cfg.channels {
             for b in &cfg.proper {
-                for &amt in &cfg.recv_amounts {
-                    for &to in &cfg.receivers {
-                        let payable = matches!(b, Base::Tok(_)) && matches!(to, Rcv::User(_));
+                // a well-prefixed voucher of a local token gets the full amount x receiver x fault
+                // product; every other denomination (never redeemable) the reduced one
+                let local = matches!(b, Base::Tok(_));
+                let amts = if local { &cfg.recv_amounts } else { &cfg.bad_amounts };
+                let rcvs = if local { &cfg.receivers } else { &cfg.bad_receivers };
+                for &amt in amts {
+                    for &to in rcvs {
+                        let payable = local && matches!(to, Rcv::User(_));
                         for f in faults(payable) {
                             out.push(Act::Recv {
                                 ch,
@@ -1332,7 +1340,7 @@ impl Model for Ics20Model {
             }
             for d in &cfg.bad {
                 for &amt in &cfg.bad_amounts {
-                    for &to in &cfg.receivers {
+                    for &to in &cfg.bad_receivers {
                         out.push(Act::Recv {
                             ch,
                             den: *d,
